@@ -74,12 +74,18 @@ NameCases == UNION {
           value |-> IF n \in NamesOf(e) THEN ValueByName(e, n) ELSE 0, vname |-> n]
             : n \in Lookalikes \cup NamesOf(Neighbour(i, 1)) \cup NamesOf(Neighbour(i, 2))}
    : i \in Idx(Ref.enums)}
-Cases == TagCases \cup EnumCases \cup MaskCases \cup MaskPairCases \cup NameCases
+\* enumerations an application registers for its own tags with its own Go types - whatever these types are called (the first two are
+\* called like standard tags, the third is not): the scope of a type is the tag it was registered with. Values 1 and 2 are registered
+\* as "Unlocked" and "Locked", 9 is not.
+VendorTypeCases == {[kind |-> "vendortype", tag |-> 5505040 + i, name |-> <<"State", "ObjectType", "VendorKind">>[i], value |-> v,
+                     vname |-> IF v = 1 THEN "Unlocked" ELSE IF v = 2 THEN "Locked" ELSE ""] : i \in 1..3, v \in {1, 2, 9}}
+Cases == TagCases \cup EnumCases \cup MaskCases \cup MaskPairCases \cup NameCases \cup VendorTypeCases
 
 Init == c \in Cases
 Next == UNCHANGED c
 Spec == Init /\ [][Next]_c
 CaseOK == /\ c.kind = "tag" => (c.name = "" <=> c.tag \notin TagNums(Ref))
           /\ c.kind \in {"enum", "mask"} => c.tag \in TagNums(Ref)
+          /\ c.kind = "vendortype" => c.tag \notin TagNums(Ref)
 Emit == PrintT(<<"CASE", ToJson(c)>>)
 =============================================================================
